@@ -197,7 +197,7 @@ theorem history_sync {sid : Nat} {sv sv' : Server} (hh : History sid sv sv') (h 
 theorem converges_history_core {sid : Nat} {sv sv' : Server} (hh : History sid sv sv') (h : Inv sv) {s : Sess}
     (hs : sv.sess? sid = some s) (hen : s.subsEnabled = true) (hq : pend s = {})
     (hq' : ∀ s', sv'.sess? sid = some s' → pend s' = {}) (m : Mirror) (hm : MirrorOK sv s m) :
-    ∃ s' sent, sv'.sess? sid = some s' ∧ s'.core = s.core ∧ dataLines s' = dataLines s ++ sent.map dataText ∧
+    ∃ s' sent, sv'.sess? sid = some s' ∧ s'.vcore = s.vcore ∧ dataLines s' = dataLines s ++ sent.map dataText ∧
       MirrorOK sv' s' (applyMsgs m sent) := by
   obtain ⟨hsync, _⟩ := history_sync hh h
   obtain ⟨evs, hsy⟩ := hsync s hs hen m
